@@ -118,6 +118,23 @@ def run(ctx):
         c['multi'] = True
         c['thresh'] = rng.randint(0, 5)
         cases.append(c)
+    # a scope for the language that is already in force, nested in another scope, followed by a detached flow (on purpose)
+    import gen
+    SAME = {'german': ['german', 'ngerman'], 'russian': ['russian'], 'french': ['french'], 'english': ['english', 'american']}
+    for _ in range(max(40, n // 15)):
+        g = gen.G(rng, {'only': ONLY, 'heading_footnotes': False, 'max_depth': 2})
+        outer = rng.choice(list(SAME))
+        inner = {'t': 'foreign', 'lang': rng.choice(SAME[outer]), 'body': {'t': 'seq', 'items': [g.word(), {'t': 'ws', 's': ' '}, g.word()]}}
+        if rng.random() < 0.4:
+            inner = {'t': 'otherlanguage', 'lang': rng.choice(SAME[outer]), 'star': rng.random() < 0.3, 'body': inner['body']}
+        fn = {'t': 'footnote', 'name': '\\footnote', 'opt': None, 'body': {'t': 'seq', 'items': [g.word(), {'t': 'ws', 's': ' '}, g.word()]}}
+        body = {'t': 'seq', 'items': [g.word(), {'t': 'ws', 's': ' '}, inner, {'t': 'ws', 's': ' '}, g.word(), fn, {'t': 'ws', 's': ' '}, g.word()]}
+        scope = ({'t': 'otherlanguage', 'lang': outer, 'star': False, 'body': body} if rng.random() < 0.6
+                 else {'t': 'foreign', 'lang': outer, 'body': body})
+        ast = {'t': 'seq', 'items': [g.word(), {'t': 'ws', 's': '\n'}, scope, {'t': 'ws', 's': '\n'}, g.word(), {'t': 'ws', 's': ' '}, g.word()]}
+        r = gen.R(); gen.render(ast, r)
+        cases.append({'src': r.src(), 'opts': {'lang': rng.choice(['en-GB', 'de-DE', 'ru-RU', '']), 'pack': '*'}, 'multi': True,
+                      'thresh': rng.randint(0, 5), 'kind': 'sem', 'ast': ast, 'words': r.words, 'spans': r.spans, 'callspans': r.callspans})
     ctx.stats['_rule'] = ('documents of words, groups, unknown macros, footnotes mixed with \\selectlanguage, \\foreignlanguage and otherlanguage '
                           'environments in any nesting; thresholds 0..5; main languages en-GB/de-DE/ru-RU/fr/en-US/none; reference language per word '
                           'from a push/pop/replace-top reading of the AST; non-trivial = at least two languages expected')
